@@ -79,6 +79,7 @@ PROPS = {
     "C16": {
         "jobs": lambda tier: [
             J("prod", "c16", needs_repo_bins=["mlar"]),
+            J("prod", "c16-symlink", needs_repo_bins=["mlar"]),
         ],
         "rule": "member-name sets from the path grammar: EVERY name of depth <= 2 (quick) / <= 3 (thorough) over 11 component kinds "
                 "('.', '..', normal, empty, unicode, 255 and 256 bytes, '...', absolute markers) x leading/trailing separator, "
